@@ -1,6 +1,8 @@
 use tokio::time::Instant;
 
+/// Source of the current time for the LRU cache's `last_unlocked` time stamps.
 pub trait TimeProvider {
+    /// The current time.
     fn now(&self) -> Instant;
 }
 
